@@ -304,6 +304,14 @@ def m_zeros(interp, n, dtype=float):
     return AbsArr(n, dt, ("zeros",))
 
 
+def m_empty(interp, shape, dtype=float):
+    from .absarr import Empty
+    if shape == (0,) or shape == 0:
+        M.trusted("numpy: np.empty((0,), dtype=d) is an empty 1-d array of dtype d")
+        return Empty(dtype)
+    raise Unsupported("np.empty%r" % (shape,))
+
+
 class AbsArr(object):
     """Array known by length, dtype and an abstract tag."""
 
@@ -332,6 +340,7 @@ def _bufview_getitem(interp, v, k):
 def install(interp, m):
     table = {
         "zeros": lambda *a, **k: m_zeros(interp, *a, **k),
+        "empty": lambda *a, **k: m_empty(interp, *a, **k),
     }
     interp.external["numpy"] = M.NpProxy(np, table)
     m[("getitem", FileArr)] = _filearr_getitem
